@@ -23,7 +23,8 @@ RULE = (
     'pre-state and the rows-versus-files audit is clean; if it completes, the state equals the model after all executed ops; '
     'an inner exception handled inside the outer block leaves the executed ops in place. concurrent: client 0 runs a block '
     '(possibly aborting) while 1-2 other clients (own Cache object, or another thread on the SAME object) read and write under a '
-    'generated schedule; oracle = linearizability with the whole block as one atomic call. non-trivial = the block raises '
+    'generated schedule; oracle = linearizability with the whole block as one atomic call; sharded variant: two clients run FanoutCache.transact() blocks '
+    'against a plain writer (own FanoutCache objects, 2/3/8 shards), same oracle, a history explained only when blocks are atomic per shard is the recorded known finding. non-trivial = the block raises '
     'after >= 1 write, or a foreign call overlaps the open block with interleaved statements; distinct by SHA-1 of the case'
 )
 ASSUMPTIONS = [
